@@ -504,22 +504,13 @@ def carriesStatus (r : Rule) : Bool := !(r.statusCode.getD 0 == 0)
 def carriesLog (r : Rule) : Bool := r.logOverride.isSome
 def unconditional (r : Rule) : Bool := codesOf r == []
 
-/-- Last element and the one before it. -/
-def lastTwo {α : Type} : List α → Option (Option α × α)
-  | [] => none
-  | [a] => some (none, a)
-  | a :: b :: rest =>
-    match lastTwo (b :: rest) with
-    | some (none, l) => some (some a, l)
-    | other => other
-
 /-- `(primary, fallback)` among the rules satisfying `carries`: the primary is the last one (highest
 priority); the one before it is its fallback iff it is unconditional and the primary is conditional. -/
 def primaryFallback (carries : Rule → Bool) (C : List Rule) : Option (Rule × Option Rule) :=
-  match lastTwo (C.filter carries) with
-  | none => none
-  | some (none, p) => some (p, none)
-  | some (some q, p) => some (p, if unconditional q && !unconditional p then some q else none)
+  match (C.filter carries).reverse with
+  | [] => none
+  | [p] => some (p, none)
+  | p :: q :: _ => some (p, if unconditional q && !unconditional p then some q else none)
 
 /-- The status rule of a rule (`from_route_rule`) with the fallback taken from `fb`. -/
 def statusUpdateOf (p : Rule) (fb : Option Rule) : StatusCodeUpdate := {
@@ -539,7 +530,7 @@ def logOverrideOf (p : Rule) (fb : Option Rule) : LogOverride := {
 /-- The header filters a rule contributes: `Location` override first (non-empty target), then its own. -/
 def ruleHeaderFilters (q : Req) (r : Rule) : List HeaderFilterAction :=
   ((match r.target with
-    | some t => if t == "" then [] else
+    | some t => if t.isEmpty then [] else
         [({ action := "override", header := "Location", value := locationValue t q,
             id := r.redirectUnitId, targetHash := r.targetHash } : HeaderFilter)]
     | none => []) ++ r.headerFilters.getD []).map fun f =>
